@@ -10,6 +10,7 @@ concretisations of one derivation get the same diagnostics.
 """
 import os
 import json
+import collections
 
 import cache
 import tlc
@@ -147,10 +148,20 @@ def run_c17(pid, tier):
     classes = list(FILLER_CLASSES)
     base = dict(seed=sd)
 
+    quoted_ops = {"line_too_long", "comment_in_body", "eol_comment_body", "mid_comment"}
+    nfull = collections.Counter()
+
     def variants(i):
         out = []
         k = len(classes)
         pairs = [(classes[(i + j) % k], classes[(i + j + 1 + (j % (k - 1))) % k]) for j in range(2 if tier == "quick" else 6)]
+        # the violation variants that ADD quoted text (an over-long comment line, a comment in a body / after or inside a
+        # statement): every class against plain letters, for the first few derivations of each operator
+        rec = recs[i][0] if isinstance(recs[i], (tuple, list)) else recs[i]
+        op = (rec.get("viol") or {}).get("op")
+        if op in quoted_ops and nfull[op] < (6 if tier == "quick" else 40):
+            nfull[op] += 1
+            pairs = [("letters", c) for c in classes if c != "letters"]
         for a, b in pairs:
             if a != b:
                 out.append((f"{a}/{b}", dict(base, quoted_class=a, quoted_seed=sd * 5 + 1), dict(base, quoted_class=b, quoted_seed=sd * 5 + 2)))
